@@ -2,10 +2,11 @@ package main
 
 import (
 	"fmt"
-	"os"
 	"go/constant"
 	"go/token"
 	"go/types"
+	"math/big"
+	"os"
 	"sort"
 	"strings"
 
@@ -21,15 +22,15 @@ type Query struct {
 	Path    string
 	Cover   bool // vacuity check: satisfiable is good
 	// filled by the solver stage
-	Result  string // unsat sat unknown timeout error
-	Solver  string
-	Millis  int64
-	Model   string
-	SMT     string
-	Agreed  []string
-	Cx      *Ctx
-	Vars    map[string]*Term // interesting values for replay (params, loop vars)
-	Unfold  []string         // clause-level additions to the unit's unfold list
+	Result string // unsat sat unknown timeout error
+	Solver string
+	Millis int64
+	Model  string
+	SMT    string
+	Agreed []string
+	Cx     *Ctx
+	Vars   map[string]*Term // interesting values for replay (params, loop vars)
+	Unfold []string         // clause-level additions to the unit's unfold list
 }
 
 type Obligation struct {
@@ -62,33 +63,33 @@ type fieldStep struct {
 }
 
 type IterState struct {
-	ks   *Term // (Array Int K)
-	idx  *Term // inverse enumeration: (Array K Int)
-	n    *Term
-	i    *Term
-	mv   *Term // map value at Range time
-	ref  *Term
-	comp string
-	mt   *types.Map
-	prev *Term
+	ks    *Term // (Array Int K)
+	idx   *Term // inverse enumeration: (Array K Int)
+	n     *Term
+	i     *Term
+	mv    *Term // map value at Range time
+	ref   *Term
+	comp  string
+	mt    *types.Map
+	prev  *Term
 	facts []*Term // enumeration axioms (kept across loop cut points)
 }
 
 type Path struct {
-	st      *State
-	assumes []*Term
-	vals    map[ssa.Value]*Term
-	tuples  map[ssa.Value][]*Term
-	addrs   map[ssa.Value]*Addr
-	locals  map[*ssa.Alloc]*Term
-	iters   map[ssa.Value]*IterState
-	names   map[string]ssa.Value // source-level names (DebugRef / phi comments)
-	nameAddr map[string]bool
-	knownNN map[string]bool      // pointer terms already required non-nil on this path
-	trace   []int
-	depth   int
-	ghosts  map[string]*Term
-	loopEntry map[int]*State // per loop ordinal: the state when the loop was entered
+	st         *State
+	assumes    []*Term
+	vals       map[ssa.Value]*Term
+	tuples     map[ssa.Value][]*Term
+	addrs      map[ssa.Value]*Addr
+	locals     map[*ssa.Alloc]*Term
+	iters      map[ssa.Value]*IterState
+	names      map[string]ssa.Value // source-level names (DebugRef / phi comments)
+	nameAddr   map[string]bool
+	knownNN    map[string]bool // pointer terms already required non-nil on this path
+	trace      []int
+	depth      int
+	ghosts     map[string]*Term
+	loopEntry  map[int]*State  // per loop ordinal: the state when the loop was entered
 	localFacts map[int][]*Term // per loop ordinal: assumptions to forget when the loop is left
 }
 
@@ -165,32 +166,32 @@ type Verifier struct {
 
 // Unit is the verification of one function body against its contract.
 type Unit struct {
-	v     *Verifier
-	fn    *ssa.Function
-	name  string // display name
-	bc    *BoundContract
-	cx    *Ctx
-	entry *State
-	params map[string]*Term
-	paramList []*Term
-	obs   map[string]*Obligation
-	order *[]string
-	undecided []string
-	pendingFork []fork
-	pathDead bool
-	trusted map[string]bool
-	globalFacts []*Term
-	baseAssumes int // number of leading path assumptions that come from the precondition
-	unmodelled []string // calls / values the engine had to treat as opaque (reported with failures)
-	paths int
-	loops map[*ssa.BasicBlock]int // header -> ordinal
-	loopBody map[*ssa.BasicBlock]map[*ssa.BasicBlock]bool
-	counters map[string]int
-	siteNames map[ssa.Instruction]map[string]string
-	inlineDepth int
-	retHook func(p *Path, results []*Term) // set while inlining
+	v              *Verifier
+	fn             *ssa.Function
+	name           string // display name
+	bc             *BoundContract
+	cx             *Ctx
+	entry          *State
+	params         map[string]*Term
+	paramList      []*Term
+	obs            map[string]*Obligation
+	order          *[]string
+	undecided      []string
+	pendingFork    []fork
+	pathDead       bool
+	trusted        map[string]bool
+	globalFacts    []*Term
+	baseAssumes    int      // number of leading path assumptions that come from the precondition
+	unmodelled     []string // calls / values the engine had to treat as opaque (reported with failures)
+	paths          int
+	loops          map[*ssa.BasicBlock]int // header -> ordinal
+	loopBody       map[*ssa.BasicBlock]map[*ssa.BasicBlock]bool
+	counters       map[string]int
+	siteNames      map[ssa.Instruction]map[string]string
+	inlineDepth    int
+	retHook        func(p *Path, results []*Term) // set while inlining
 	globalsAssumed map[string]bool
-	covers []*Query
+	covers         []*Query
 }
 
 type undecidedErr string
@@ -761,6 +762,13 @@ func (u *Unit) exec(p *Path, in ssa.Instruction) {
 		if from != to {
 			u.fail("conversion %s -> %s", x.X.Type(), x.Type())
 		}
+		// integer narrowing (or a change of signedness) wraps: the result is the source value modulo 2^bits,
+		// taken in the target's range. Widening conversions are the identity.
+		if lo, bits, ok := intRange(x.Type()); ok {
+			if slo, sbits, sok := intRange(x.X.Type()); sok && !(slo <= 0 && lo <= slo && (sbits < bits || (sbits == bits && (slo < 0) == (lo < 0)))) {
+				v = wrapInt(v, lo < 0, bits)
+			}
+		}
 		p.vals[x] = v.WithT(x.Type())
 	case *ssa.ChangeType:
 		p.vals[x] = u.val(p, x.X).WithT(x.Type())
@@ -1018,7 +1026,9 @@ func (u *Unit) lookup(p *Path, x *ssa.Lookup) {
 }
 
 // enumAxioms: ks enumerates exactly the keys of mv, without repetition.
-func (u *Unit) enumAxioms(mv *Term, ks, idx, n *Term) []*Term { return u.enumAxiomsP(mv, ks, idx, n, true) }
+func (u *Unit) enumAxioms(mv *Term, ks, idx, n *Term) []*Term {
+	return u.enumAxiomsP(mv, ks, idx, n, true)
+}
 
 // enumAxiomsP: eager=false omits the trigger on domain membership (used for len(m), where the
 // enumeration only witnesses the cardinality), which otherwise feeds other enumerations' triggers.
@@ -1183,4 +1193,45 @@ func sortedBlocks(m map[*ssa.BasicBlock]int) []*ssa.BasicBlock {
 	}
 	sort.Slice(bs, func(i, j int) bool { return bs[i].Index < bs[j].Index })
 	return bs
+}
+
+// intRange gives, for an integer type, the sign of its lower bound (-1 signed, 0 unsigned) and its width
+// on a 64-bit target (int, uint and uintptr are 64 bits wide).
+func intRange(t types.Type) (lo int, bits int, ok bool) {
+	b, isB := t.Underlying().(*types.Basic)
+	if !isB || b.Info()&types.IsInteger == 0 {
+		return 0, 0, false
+	}
+	switch b.Kind() {
+	case types.Int8:
+		return -1, 8, true
+	case types.Int16:
+		return -1, 16, true
+	case types.Int32:
+		return -1, 32, true
+	case types.Int64, types.Int, types.UntypedInt, types.UntypedRune:
+		return -1, 64, true
+	case types.Uint8:
+		return 0, 8, true
+	case types.Uint16:
+		return 0, 16, true
+	case types.Uint32:
+		return 0, 32, true
+	case types.Uint64, types.Uint, types.Uintptr:
+		return 0, 64, true
+	}
+	return 0, 0, false
+}
+
+// wrapInt is two's-complement truncation of a mathematical integer to the given width.
+func wrapInt(v *Term, signed bool, bits int) *Term {
+	pow := func(n int) *Term {
+		z := new(big.Int).Lsh(big.NewInt(1), uint(n))
+		return &Term{Op: "#int", Sort: SInt, Lit: z.String()}
+	}
+	if !signed {
+		return App("mod", SInt, v, pow(bits))
+	}
+	half := pow(bits - 1)
+	return App("-", SInt, App("mod", SInt, App("+", SInt, v, half), pow(bits)), half)
 }
